@@ -9,7 +9,6 @@ import (
 	"fmt"
 	"sort"
 	"strings"
-	"time"
 
 	commonmodels "github.com/lindb/common/models"
 	"github.com/lindb/common/pkg/encoding"
@@ -65,7 +64,8 @@ type SeriesDef struct {
 }
 
 // Point is one already bucketed data point: series, field, slot (offset from the query start
-// in units of the interval), integer value.
+// in units of the interval), value in EIGHTHS (the written float is Val/8: exactly representable,
+// sums stay exact; the line protocol and the model carry every value scaled by 8, as integers).
 type Point struct {
 	Series, Field, Slot int
 	Val                 int64
@@ -242,7 +242,7 @@ type sliceGetter map[uint16]float64
 func (g sliceGetter) GetValue(slot uint16) (float64, bool) { v, ok := g[slot]; return v, ok }
 
 func newTracker() *tracker.StageTracker {
-	return tracker.NewStageTracker(flow.NewTaskContextWithTimeout(context.Background(), time.Minute))
+	return tracker.NewStageTracker(flow.NewTaskContextWithTimeout(context.Background(), leafTimeout))
 }
 
 // ---------------------------------------------------------------- the real leaf
@@ -307,7 +307,7 @@ func RunLeafPlan(w *World, q *QueryDef, leaf *LeafDef, receivers []string) ([]*p
 	}
 	db := &stubDB{meta: &metaDB{schema: schema}}
 	fct := &capFactory{streams: map[string]*capStream{}}
-	taskCtx := flow.NewTaskContextWithTimeout(context.Background(), time.Minute)
+	taskCtx := flow.NewTaskContextWithTimeout(context.Background(), leafTimeout)
 	req := &protoCommonV1.TaskRequest{RequestID: "r1", RequestType: protoCommonV1.RequestType_Data}
 	target := &models.Target{Indicator: leaf.Name}
 	lctx := querycontext.NewLeafExecuteContext(taskCtx, tracker.NewStageTracker(taskCtx), st, req, fct, target, receivers, db)
@@ -381,9 +381,9 @@ func RunLeafPlan(w *World, q *QueryDef, leaf *LeafDef, receivers []string) ([]*p
 			}
 			// same-slot points of one series were already combined by storage (C11's domain)
 			if old, ok := perField[fi][uint16(p.Slot)]; ok {
-				perField[fi][uint16(p.Slot)] = w.Fields[p.Field].Type.AggType().Aggregate(old, float64(p.Val))
+				perField[fi][uint16(p.Slot)] = w.Fields[p.Field].Type.AggType().Aggregate(old, pointValue(p))
 			} else {
-				perField[fi][uint16(p.Slot)] = float64(p.Val)
+				perField[fi][uint16(p.Slot)] = pointValue(p)
 			}
 		}
 		return perField
@@ -584,12 +584,18 @@ func resultOf(set *commonmodels.ResultSet) *Result {
 	return out
 }
 
+// ValueScale: every value on the line protocol is the real float times 8 (an integer).
+const ValueScale = 8
+
 func fmtVal(v float64) string {
-	if v == float64(int64(v)) {
-		return fmt.Sprintf("%d", int64(v))
+	x := v * ValueScale
+	if x == float64(int64(x)) {
+		return fmt.Sprintf("%d", int64(x))
 	}
-	return fmt.Sprintf("%g", v)
+	return fmt.Sprintf("%g", x) // not an eighth: the model will reject the line
 }
+
+func pointValue(p Point) float64 { return float64(p.Val) / ValueScale }
 
 // Intermediate wraps a real IntermediateMetricContext.
 type Intermediate struct {
